@@ -20,6 +20,67 @@ LEVEL = "other"
 PROP_MODULES = ["MwVerif.Props.C07"]
 
 
+ROWSPLIT = "[row split interleaves the cells of a row] "
+
+
+def row_split_explains(before, after):
+    """True when the only change of the reading order is the one the row splitters (split_table_lists,
+    split_big_table_cells) make by construction: the words of one original table row are permuted among themselves,
+    every cell's own words staying in order, everything else in place."""
+    rowid, cellid = {}, {}
+    table, last = 0, None
+    for w, c in before:
+        cell = c["cell"]
+        if cell is None or c.get("caption"):
+            if last is not None:
+                table += 1
+            last = None
+            continue
+        if last is not None and cell[0] < last:
+            table += 1
+        last = cell[0]
+        rowid[w] = (table, cell[0])
+        cellid[w] = (table, cell[0], cell[1])
+    wb, wa = [w for w, _ in before], [w for w, _ in after]
+
+    def collapse(ws):
+        out = []
+        for w in ws:
+            k = rowid.get(w, w)
+            if not out or out[-1] != k:
+                out.append(k)
+        return out
+
+    if collapse(wb) != collapse(wa):
+        return False
+    for cid in set(cellid.values()):
+        if [w for w in wb if cellid.get(w) == cid] != [w for w in wa if cellid.get(w) == cid]:
+            return False
+    return True
+
+
+def check_text(text):
+    """before/after oracle on a fixed wikitext (the corpus of known findings)."""
+    import contextlib
+    import io
+
+    from . import clean_common as cc
+    from . import doc_common as dc
+
+    with contextlib.redirect_stdout(io.StringIO()), contextlib.redirect_stderr(io.StringIO()):
+        t = cc.build(text)
+        before = dc.read_tree(t)
+        cc.run_passes(t)
+    after = dc.read_tree(t)
+    wb, wa = [w for w, _ in before], [w for w, _ in after]
+    if wa != wb and sorted(wa) == sorted(wb):
+        moved = [w for w, v in zip(wa, wb) if w != v][:4]
+        return (ROWSPLIT if row_split_explains(before, after) else "") + f"the reading order changed: {moved} moved"
+    if wa != wb:
+        return "words lost or duplicated"
+    return None
+
+
 def check_doc(seed):
     """-> (None | why, text, stats)"""
     import contextlib
@@ -51,7 +112,8 @@ def check_doc(seed):
             return f"the words {lost[:4]} are gone after cleaning", text, stats
         if dup:
             return f"the words {dup[:4]} occur more than once after cleaning", text, stats
-        return f"the reading order changed: {[w for w, v in zip(wa, wb) if w != v][:4]} moved", text, stats
+        return ((ROWSPLIT if row_split_explains(before, after) else "")
+                + f"the reading order changed: {[w for w, v in zip(wa, wb) if w != v][:4]} moved"), text, stats
     fb = dict(before)
     for w, f in after:
         g = fb[w]
@@ -92,6 +154,12 @@ def replay(chk, data):
     from . import build_repo
 
     build_repo.overlay_all()
+    if "seed" not in data and data.get("text"):
+        why = check_text(data["text"])
+        chk.say(f"replay: {why or 'lossless'}")
+        if why:
+            chk.violation("C07 violated: " + why, data)
+        return
     if "seed" in data:
         why, text, _ = check_doc(data["seed"])
         chk.say(f"replay: {why or 'lossless'}")
@@ -137,14 +205,23 @@ def run(chk: common.Check):
                 "complete pass sequence: word order, section path, list nesting, reference, cell membership. non-trivial = documents",
         "histogram": dict(hist),
     })
+    corpus = common.ROOT / "corpus" / "C07" / "known.json"
+    if corpus.exists():
+        for e in json.load(open(corpus)):
+            why = check_text(e["text"])
+            if why:
+                bad.insert(0, {"text": e["text"], "why": why})
     seen = set()
     for b in bad:
+        if b["why"].startswith(ROWSPLIT):
+            chk.violation("C07 violated: " + b["why"], b, sig={"kind": "row-split-interleaves-cells"})
+            continue
         k = b["why"][:25]
         if k in seen or len(seen) >= 3:
             continue
         seen.add(k)
         chk.violation("C07 violated: " + b["why"], b, sig={"why": b["why"][:25]})
-    if bad:
+    if chk.violations:
         return
     if not res.ok:
         chk.violation("C07 is no longer shown to hold: lean broke; the word/ancestor oracle found no lossy document",
